@@ -39,6 +39,21 @@ fn run_job(run: &mut Run, job: &Job, deep_depth: usize, budget_s: f64) -> Explor
     engine::explore(run, "hist", &x, budget_s * 0.6, budget_s * 0.4)
 }
 
+/// Fixed scenario: repeated identical 4-word plain query on one index instance.
+fn scenario(run: &mut Run) {
+    let (evals, found) = tfs::multiword_repeat_scenario(512);
+    run.add("evaluations", evals);
+    run.add("traces_validated_against_impl", 1);
+    if let Some((summary, replay)) = found {
+        println!("scenario: {summary}");
+        run.violation(vcore::Violation {
+            signature: tfs::SIG_HASH_ORDER.to_string(),
+            summary,
+            replay,
+        });
+    }
+}
+
 fn main() {
     let mut run = Run::from_args("C11", "hist", "model_checking");
     let deep_depth = run.tier.pick(2, 3);
@@ -47,7 +62,11 @@ fn main() {
             Some(d) => d,
             None => vcore::report::machinery("cannot read replay file"),
         };
-        engine::replay::<Tfs>(&mut run, "hist", &doc, || Mode::Hist, deep_depth);
+        if doc["replay"]["scenario"].as_str() == Some("multiword-repeat") {
+            scenario(&mut run);
+        } else {
+            engine::replay::<Tfs>(&mut run, "hist", &doc, || Mode::Hist, deep_depth);
+        }
         run.finish();
     }
 
@@ -68,6 +87,7 @@ fn main() {
             Job { bucket: 32, start: Some(0), alphabet: full.clone(), depth: 5, dedup: true, share: 0.10 },
         ],
     };
+    scenario(&mut run);
     let total = run.budget_s * 0.92;
     let mut outs = Vec::new();
     let mut carry = 0.0;
@@ -110,7 +130,8 @@ fn main() {
     );
     run.assume("the model tokenizes with the crate's own collect_tokens(default_tokenizer()), as the property prescribes; the tokenizer itself is trusted");
     run.assume("scoring is a function of postings, doc_tokens and total_tokens; the deep battery therefore runs once per distinct model state (model state includes the stale posting entries allowed by remove-with-non-original-text)");
-    run.assume("plain search() with >= 3 words is checked for set/order only, not for bit-identical repeats: the crate adds the per-token scores in the iteration order of a randomly seeded std HashMap");
+    run.rule("fixed scenario (6 documents, one 4-word plain query repeated 512 times on one index instance): every repeat bit-identical");
+    run.assume("the order in which score_term adds per-token scores comes from a randomly seeded std HashMap; a repeat difference is therefore found with probability 1 - 0.8^512 per run, not with certainty");
     run.assume("dedup key does not see in-memory bucket size estimates or version counters; a no-dedup run to a smaller depth cross-checks it");
     run.finish();
 }
